@@ -8,7 +8,17 @@ parameter (receiver, positional, defaulted, keyword-only, extra) and the outcome
 classification helpers.  The Lean model (AsynqModel.Lib.Decorators) computes the same observations from the objects
 `__get__`/`__call__`/`asynq`/`async_call` build (correspondence), and the Lean predicate `Decorators.spec` (the
 statement of C09, proved of the model for every cell and ARBITRARY argument lists) judges the implementation's
-observations on their own."""
+observations on their own.
+
+Three conventions make a SECOND call of the same decorated attribute - in flight in the same yield (`sibling`, through
+async_call: `siblingCall`) or completed / failed just before (`prior`).  The second call goes through another receiver
+(a second instance of the class, the other class of the hierarchy for a classmethod) or passes other argument objects;
+the objects are plain, falsy, or chosen so that their HASHES COLLIDE with those of the observed call (a user class with
+a constant __hash__ and __repr__, built-in ints k / k + 2**61-1, tuples (-1, k) / (-2, k)).  Each of the two calls
+must run the body with its own receiver and its own arguments (theorems C09_second_call, C09_other_keys_irrelevant,
+C09_dict_hash_irrelevant: the in-flight table of deduplicate and the caches of alru_cache / acached_per_instance are
+part of the model, with an arbitrary hash function).  When the second call would be the observed call itself (nothing to
+vary) the three conventions are skipped: how often a body runs for IDENTICAL calls is C12's / C13's subject."""
 import hashlib
 import json
 import random
@@ -30,6 +40,11 @@ THEOREMS = [
     "AsynqModel.Decorators.C09_truthiness_history_irrelevant",
     "AsynqModel.Decorators.C09_receiver_per_access",
     "AsynqModel.Decorators.C09_spec_holds",
+    "AsynqModel.Decorators.C09_dict_hash_irrelevant",
+    "AsynqModel.Decorators.C09_second_call",
+    "AsynqModel.Decorators.C09_second_call_default_key",
+    "AsynqModel.Decorators.C09_second_call_receivers",
+    "AsynqModel.Decorators.C09_other_keys_irrelevant",
 ]
 BUILDS = {"quick": ["py"], "thorough": ["py", "cy"]}
 EXHAUSTIVE = {"quick": True, "thorough": True}
@@ -42,22 +57,36 @@ RULE = ("exhaustive product: 12 decorator kinds (undecorated, asynq, asynq pure,
         "11 fixed argument patterns (positional, keyword, default, keyword-only, extra, 4 malformed), then seeded random "
         "argument lists; every cell runs 10 calling conventions (sync call, .asynq().value(), yield .asynq() from a task, "
         "sync call inside a task, yield async_call.asynq, async_call(), get_async_fn, get_async_or_sync_fn, "
-        "get_async_fn(wrap_if_none=True), .asynq() with a same-named twin in flight) + the 5 classification helpers; every class-bound cell is run again with FALSY instances and classes and after look-ups of the same attribute through the other access paths (base then subclass, subclass then base, instances in between); non-trivial = a body was entered by at least two "
+        "get_async_fn(wrap_if_none=True), .asynq() with a same-named twin in flight, .asynq() and async_call with a SECOND "
+        "CALL OF THE SAME ATTRIBUTE in flight, .asynq() after such a call has completed) + the 5 classification helpers; "
+        "second-call family: every cell x (second call through another receiver | with other argument objects) x kind of "
+        "objects (plain, all hashes and reprs equal, built-in ints with equal hashes, tuples with equal hashes, falsy) x "
+        "3 body kinds on a call passing positional, defaulted and keyword-only parameters + seeded random calls; 30 % of "
+        "the random calls of the main product draw these dimensions at random, 15 % raise an exception that derives "
+        "from BaseException only or is falsy, 10 % use a user task class (asynq(cls=...)), 10 % a user key function "
+        "(deduplicate(keygetter=...), alru_cache(key_fn=...)); every class-bound cell is run again with FALSY instances and classes and after look-ups of the same attribute through the other access paths (base then subclass, subclass then base, instances in between); non-trivial = a body was entered by at least two "
         "conventions with a receiver or at least one argument; distinct by hash of the cell")
 TRUSTED = [
     "hand-written Lean model AsynqModel.Lib.Decorators (objects built by qcore.decorators.DecoratorBase.__init__/__get__, "
     "the asynq decorator/binder classes and tools wrappers) tied to the code by this exhaustive differential run only",
     "Lean function Decorators.bind = CPython's binding of positional/keyword arguments to parameters (assumed semantics, "
     "covered by the same differential run)",
-    "Python harness checks/c09.py (class generation, token <-> object identity mapping)",
+    "Python harness checks/c09.py (class generation, token <-> object identity mapping; in the two-call conventions an "
+    "exception raised while a future is being created is delivered where the future is awaited, so that both calls are made)",
     "qcore.decorators (compiled), qcore.caching.get_args_tuple, CPython descriptor protocol for function/staticmethod/classmethod",
 ]
 ASSUMPTIONS = [
     "`.value()`, yielding a future from a task and a nested synchronous call deliver the future's own outcome (C01/C02)",
     "asyncio mode is off (fn.asyncio is C15); single thread",
     "function-style wrappers (aretry, alru_cache, acached_per_instance) are exercised only on functions and instance "
-    "methods; each convention runs on freshly generated classes, so caches are cold (cache histories are C13, "
-    "in-flight sharing is C12)",
+    "methods; each convention runs on freshly generated classes, so caches are cold apart from the ONE earlier call of "
+    "the convention `prior` (longer cache histories are C13)",
+    "the second call of sibling / siblingCall / prior always differs from the observed one in its receiver or in every "
+    "argument object, with the same spelling (so any key function that keeps the arguments apart separates them); how "
+    "often a body runs for two IDENTICAL calls (in-flight sharing, cache hits) is C12 / C13 and the conventions are "
+    "skipped there; argument objects compare by identity (no two distinct objects are ==)",
+    "the class of the raised exception, a user task class and a user key function are not inputs of the model: its "
+    "answer is the same for all of them",
 ]
 
 KINDS = ["raw", "asynq", "pure", "proxy", "proxyPure", "pair", "pairProxy", "mad", "dedup", "aretry", "alru", "acpi"]
@@ -70,7 +99,17 @@ ACCS = ["inst", "cls", "subInst", "subCls"]
 BODIES = ["plain", "gen", "batch"]
 SIGS = ["fixed", "var", "mixed"]
 CONVS = ["sync", "asynqValue", "yieldAsynq", "nestedSync", "asyncCall", "asyncCallSync", "getAsyncFn", "getAsyncOrSync",
-         "getAsyncFnWrap", "twin"]
+         "getAsyncFnWrap", "twin", "sibling", "siblingCall", "prior"]
+# conventions with a SECOND call of the same attribute; `rel` = how that call differs from the observed one,
+# `vk` = what kind of objects the argument values (and, for chash, the receivers) are
+SIBCONVS = ("sibling", "siblingCall", "prior")
+RELS = ["args", "recv"]
+VKS = ["tok", "chash", "bigint", "tuple", "falsy"]
+SUBST = 100   # the value that replaces value token n in the second call is token n + SUBST
+INST2, SUBINST2 = 9, 10   # second instances of Base and of Sub
+# dimensions the model does not look at (it is the same for all of them): class of the exception a body raises,
+# a user task class (asynq(cls=...)), a user supplied key function (deduplicate(keygetter=...), alru_cache(key_fn=...))
+EKS = ["exc", "base", "falsy"]
 UNKNOWN = 999
 # tokens: receivers 1-8, separators 0, defaults 20/21, argument values 30.., names a=1 b=2 c=3 d=4 e=5
 INST, CLS, SUBINST, SUBCLS = 1, 2, 3, 4
@@ -108,6 +147,8 @@ def cells():
 
 def gen_args(rng):
     npos = rng.choice([0, 1, 1, 2, 2, 3, 4])
+    if rng.random() < 0.04:
+        npos = rng.choice([9, 12])   # long argument lists (valid for the *args signatures)
     pos = [30 + i for i in range(npos)]
     names = [n for n in (1, 2, 3, 4, 5) if rng.random() < 0.35]
     rng.shuffle(names)
@@ -142,10 +183,84 @@ def variants(tier, acc):
     return res
 
 
+def eff_recv(case):
+    """the second call really uses another receiver (otherwise every argument value is replaced)"""
+    return case.get("rel", "args") == "recv" and case["acc"] != "direct" and case["ft"] != "static"
+
+
+def identical_second(case):
+    """the second call would be the observed call itself: nothing to vary"""
+    return not eff_recv(case) and not case["pos"] and not case["kw"]
+
+
+def gen_opts(rng, p=0.3):
+    """random values of the second-call dimensions and of the dimensions the model does not look at"""
+    o = {}
+    if rng.random() < p:
+        o["rel"] = rng.choice(RELS)
+        o["vk"] = rng.choice(VKS)
+    if rng.random() < p / 2:
+        o["ek"] = rng.choice(EKS[1:])
+    if rng.random() < p / 3:
+        o["tcls"] = 1
+    if rng.random() < p / 3:
+        o["kg"] = 1
+    return o
+
+
+def second_call_family(tier, rng):
+    """every cell x (relation of the second call x kind of value objects) x body kind, on a call that passes
+    positional, defaulted and keyword-only parameters, plus one random call; the signature rotates"""
+    cases = []
+    n = 0
+    for kind, ft, acc in cells():
+        has_recv = acc != "direct" and ft != "static"
+        for rel in RELS:
+            if rel == "recv" and not has_recv:
+                continue
+            for vk in VKS:
+                if (rel, vk) == ("args", "tok"):
+                    continue  # the default of every other case
+                for body in BODIES:
+                    if kind == "raw" and body != "plain":
+                        continue
+                    n += 1
+                    sig = SIGS[n % 3]
+                    base = dict(kind=kind, ft=ft, acc=acc, body=body, sig=sig, rel=rel, vk=vk)
+                    cases.append(dict(base, raises=0, pos=[30, 31], kw=[[3, 32]]))
+                    for _ in range(1 if tier == "quick" else 4):
+                        pos, kw = gen_args(rng)
+                        extra = {k: v for k, v in gen_opts(rng).items() if k not in ("rel", "vk")}
+                        cases.append(dict(base, raises=rng.choice([0, 0, 1]), pos=pos, kw=kw, **extra))
+    return cases
+
+
+def options_family():
+    """every decorator kind on an instance method (module function for the rest) and a classmethod via the subclass x
+    body kind x {exception deriving from BaseException only, falsy exception, user task class, user key function}"""
+    cases = []
+    for kind in KINDS:
+        binds = [("plain", "inst"), ("classm", "subCls")] if kind not in FN_STYLE else [("plain", "inst")]
+        for ft, acc in binds:
+            for i, body in enumerate(BODIES):
+                if kind == "raw" and body != "plain":
+                    continue
+                base = dict(kind=kind, ft=ft, acc=acc, body=body, sig=SIGS[i], pos=[30], kw=[[3, 32]])
+                for ek in EKS[1:]:
+                    cases.append(dict(base, raises=1, ek=ek, rel="recv"))
+                cases.append(dict(base, raises=0, tcls=1))
+                if kind in ("dedup", "alru"):
+                    for vk in ("chash", "bigint"):
+                        cases.append(dict(base, raises=0, kg=1, vk=vk))
+    return cases
+
+
 def plan(tier, seed):
     rng = random.Random(seed * 1000003 + 9)
     cases = corpus()
     nrand = 2 if tier == "quick" else 30
+    cases += options_family()
+    cases += second_call_family(tier, random.Random(seed * 1000003 + 10))
     for kind, ft, acc in cells():
         for falsy, pre in variants(tier, acc):
             for body in BODIES:
@@ -169,7 +284,8 @@ def plan(tier, seed):
                                           pos=list(pos), kw=[list(x) for x in kw]))
                     for _ in range(nrand if not raises else 1):
                         pos, kw = gen_args(rng)
-                        cases.append(dict(kind=kind, ft=ft, acc=acc, body=body, raises=raises, sig=sig, pos=pos, kw=kw))
+                        cases.append(dict(kind=kind, ft=ft, acc=acc, body=body, raises=raises, sig=sig, pos=pos, kw=kw,
+                                          **gen_opts(rng)))
     return cases
 
 
@@ -189,6 +305,13 @@ def shrink(case):
         yield dict(case, pre=pre[:i] + pre[i + 1:])
     if case.get("falsy"):
         yield dict(case, falsy=0)
+    for k in ("ek", "tcls", "kg"):
+        if case.get(k):
+            yield {x: y for x, y in case.items() if x != k}
+    if case.get("vk", "tok") != "tok":
+        yield dict(case, vk="tok")
+    if case.get("rel", "args") != "args":
+        yield dict(case, rel="args")
 
 
 def neighbours(case, rng):
@@ -202,6 +325,9 @@ def neighbours(case, rng):
         for falsy in (0, 1):
             for a in ACCS:
                 yield dict(case, falsy=falsy, pre=[a])
+    for rel in RELS:
+        for vk in VKS:
+            yield dict(case, rel=rel, vk=vk)
     for _ in range(16):
         pos, kw = gen_args(rng)
         yield dict(case, pos=pos, kw=kw)
@@ -214,6 +340,13 @@ def signature(case, v):
         sig += "/falsy-receiver"
     if case.get("pre"):
         sig += "/after-" + "-".join(case["pre"])
+    if case.get("rel", "args") != "args" and any(("@" + c) in str(v["spec"]) for c in SIBCONVS):
+        sig += "/second-call-other-receiver"
+    if case.get("vk", "tok") != "tok":
+        sig += "/values-" + case["vk"]
+    for k in ("ek", "tcls", "kg"):
+        if case.get(k):
+            sig += "/%s=%s" % (k, case[k])
     return sig
 
 
@@ -227,6 +360,79 @@ class UserErr(Exception):
 
 class NeverRaised(Exception):
     pass
+
+
+class UserBaseErr(BaseException):
+    """an application error that does not derive from Exception"""
+
+
+class UserFalsyErr(Exception):
+    """an application error that is falsy (`if error:` is not `if error is not None:`)"""
+
+    def __bool__(self):
+        return False
+
+    def __len__(self):
+        return 0
+
+
+ERRCLS = {"exc": UserErr, "base": UserBaseErr, "falsy": UserFalsyErr}
+
+
+class CHash(object):
+    """argument objects whose hashes ALL collide and whose repr()/str() are all alike; equality is identity"""
+    __slots__ = ("n", "__weakref__")
+
+    def __init__(self, n):
+        self.n = n
+
+    def __hash__(self):
+        return 7
+
+    def __repr__(self):
+        return "<value>"
+
+    def __eq__(self, other):
+        return self is other
+
+    def __ne__(self, other):
+        return self is not other
+
+
+class FalsyVal(object):
+    """argument objects that are falsy and look like empty containers"""
+    __slots__ = ("n", "__weakref__")
+
+    def __init__(self, n):
+        self.n = n
+
+    def __bool__(self):
+        return False
+
+    def __len__(self):
+        return 0
+
+
+HASH_MODULUS = __import__("sys").hash_info.modulus
+
+
+def make_value(vk, n):
+    """the object standing for value token n (30..45 the caller's, + SUBST the replacements of the second call)"""
+    k, second = (n - SUBST, True) if n >= SUBST else (n, False)
+    k -= 29
+    if vk == "tok":
+        return Tok(n)
+    if vk == "chash":
+        return CHash(n)
+    if vk == "falsy":
+        return FalsyVal(n)
+    if vk == "bigint":
+        # hash(k) == hash(k + modulus) for built-in ints: different values, equal hashes
+        return k + HASH_MODULUS if second else k
+    if vk == "tuple":
+        # hash(-1) == hash(-2), hence hash((-1, k)) == hash((-2, k))
+        return (-2, k) if second else (-1, k)
+    raise ValueError(vk)
 
 
 class Tok(object):
@@ -296,11 +502,16 @@ class World(object):
         self.objtok = {}       # id(object) -> token
         self.keep = []
         self.ret = {i: Tok(("ret", i)) for i in (1, 2, 3, 4)}
-        self.err = {i: UserErr("e%d" % i) for i in (1, 2, 3, 4)}
+        self.err = {i: ERRCLS[case.get("ek", "exc")]("e%d" % i) for i in (1, 2, 3, 4)}
         vals = {}
-        for n in list(range(30, 46)) + [DB, DC]:
+        vk = case.get("vk", "tok")
+        for n in (DB, DC):
             vals[n] = Tok(n)
-            self.objtok[id(vals[n])] = n
+        for n in set(case["pos"]) | set(v for _, v in case["kw"]):
+            vals[n] = make_value(vk, n)
+            vals[n + SUBST] = make_value(vk, n + SUBST)
+        for n, v in vals.items():
+            self.objtok[id(v)] = n
         self.vals = vals
         yv = Tok("yv")
 
@@ -314,12 +525,13 @@ class World(object):
         env = dict(LOG=self.log, RET=self.ret, ERR=self.err, DB=vals[DB], DC=vals[DC], SEP=None, YV=yv,
                    KWFLAT=kwflat, ConstFuture=asynq.ConstFuture, ErrorFuture=asynq.ErrorFuture, DebugBatchItem=lib["DebugBatchItem"], asynq=asynq.asynq)
         # helpers for proxied bodies: tasks of the requested body kind that return RET[bid] / raise ERR[bid]
-        exec(_compiled("\n".join([
-            "@asynq()", "def HELPER_gen_0(bid):", "    yield ConstFuture(YV)", "    return RET[bid]",
-            "@asynq()", "def HELPER_gen_1(bid):", "    yield ConstFuture(YV)", "    raise ERR[bid]",
-            "@asynq()", "def HELPER_batch_0(bid):", "    yield DebugBatchItem('c09', YV)", "    return RET[bid]",
-            "@asynq()", "def HELPER_batch_1(bid):", "    yield DebugBatchItem('c09', YV)", "    raise ERR[bid]",
-        ])), env)
+        if case["kind"] in ("proxy", "proxyPure", "pairProxy") and case["body"] != "plain":
+            exec(_compiled("\n".join([
+                "@asynq()", "def HELPER_gen_0(bid):", "    yield ConstFuture(YV)", "    return RET[bid]",
+                "@asynq()", "def HELPER_gen_1(bid):", "    yield ConstFuture(YV)", "    raise ERR[bid]",
+                "@asynq()", "def HELPER_batch_0(bid):", "    yield DebugBatchItem('c09', YV)", "    return RET[bid]",
+                "@asynq()", "def HELPER_batch_1(bid):", "    yield DebugBatchItem('c09', YV)", "    raise ERR[bid]",
+            ])), env)
         self.env = env
         kind, ft, acc = case["kind"], case["ft"], case["acc"]
         self.own = self._hierarchy(lib, 0)
@@ -329,26 +541,38 @@ class World(object):
             for k, t in (("inst", INST), ("Base", CLS), ("subinst", SUBINST), ("Sub", SUBCLS)):
                 if k in h:
                     self.objtok[id(h[k])] = t + off
+        for k, t in (("inst2", INST2), ("subinst2", SUBINST2)):
+            if k in self.own:
+                self.objtok[id(self.own[k])] = t
 
     def _decorate(self, lib, f, sf, ft, inner_name):
         asynq, tools, decorators = lib["asynq"], lib["tools"], lib["decorators"]
         kind = self.case["kind"]
         wrap = {"plain": (lambda x: x), "static": staticmethod, "classm": classmethod}[ft]
+        opts = {}
+        if self.case.get("tcls"):
+            # a user task class (public keyword `cls` of asynq()): the calling conventions do not depend on it
+            opts["cls"] = type("UserTask", (asynq.AsyncTask,), {})
+        keyfn = None
+        if self.case.get("kg"):
+            # a user supplied key function (public keyword of deduplicate / alru_cache) that separates calls as the
+            # default one does
+            keyfn = lambda args, kwargs: (args, tuple(sorted(kwargs.items())))  # noqa: E731
         if kind == "raw":
             return wrap(f)
         if kind == "asynq":
-            return asynq.asynq()(wrap(f))
+            return asynq.asynq(**opts)(wrap(f))
         if kind == "pure":
-            return asynq.asynq(pure=True)(wrap(f))
+            return asynq.asynq(pure=True, **opts)(wrap(f))
         if kind == "proxy":
             return asynq.async_proxy()(wrap(f))
         if kind == "proxyPure":
             return asynq.async_proxy(pure=True)(wrap(f))
         if kind == "pair":
-            return asynq.asynq(sync_fn=wrap(sf))(wrap(f))
+            return asynq.asynq(sync_fn=wrap(sf), **opts)(wrap(f))
         if kind == "pairProxy":
             return asynq.async_proxy(sync_fn=sf)(wrap(f))
-        inner = asynq.asynq()(wrap(f))
+        inner = asynq.asynq(**opts)(wrap(f))
         if kind == "mad":
             @asynq.asynq(pure=True)
             def wrapper_fn(*args, **kwargs):
@@ -356,11 +580,11 @@ class World(object):
                 return Wrapped(value)  # a wrapper that does something: every convention must go through it
             return decorators.make_async_decorator(inner, wrapper_fn, "c09_wrapper")
         if kind == "dedup":
-            return tools.deduplicate()(inner)
+            return tools.deduplicate(keygetter=keyfn)(inner)
         if kind == "aretry":
             return tools.aretry(NeverRaised, max_tries=2, sleep=0)(inner)
         if kind == "alru":
-            return tools.alru_cache()(inner)
+            return tools.alru_cache(key_fn=keyfn)(inner)
         if kind == "acpi":
             return tools.acached_per_instance()(inner)
         raise ValueError(kind)
@@ -380,15 +604,24 @@ class World(object):
         dec = self._decorate(lib, f, sf, ft, "target")
         if acc == "direct":
             return {"fn": dec}
+        mdict, cdict = {}, {"target": dec}
         if case.get("falsy"):
             # receivers that are FALSY: empty-container-like instances, classes whose metaclass says False
-            meta = type("Meta", (type,), {"__bool__": lambda cls: False})
-            Base = meta("Base", (object,), {"target": dec, "__len__": lambda self: 0})
-            Sub = meta("Sub", (Base,), {})
-        else:
-            Base = type("Base", (object,), {"target": dec})
-            Sub = type("Sub", (Base,), {})
+            mdict["__bool__"] = lambda cls: False
+            cdict["__len__"] = lambda self: 0
+        if case.get("vk") == "chash":
+            # receivers whose hashes ALL collide (instances and classes); equality stays identity
+            for d in (mdict, cdict):
+                d["__hash__"] = lambda x: 7
+                d["__repr__"] = lambda x: "<receiver>"
+                d["__eq__"] = lambda x, y: x is y
+                d["__ne__"] = lambda x, y: x is not y
+        meta = type("Meta", (type,), mdict) if mdict else type
+        Base = meta("Base", (object,), cdict)
+        Sub = meta("Sub", (Base,), {})
         h = {"Base": Base, "Sub": Sub, "inst": Base(), "subinst": Sub()}
+        if not twin:
+            h["inst2"], h["subinst2"] = Base(), Sub()
         if not twin:
             # earlier look-ups of the same attribute through other access paths (results kept alive, never called)
             for a in case.get("pre", []):
@@ -414,6 +647,33 @@ class World(object):
         kw = {NAMES[n]: self.vals[v] for n, v in case["kw"]}
         return pos, kw
 
+    def access_sib(self):
+        """the same attribute as fetched for the SECOND call (relation recv: through a second instance of the same
+        class; a classmethod through the other class of the hierarchy)"""
+        if not eff_recv(self.case):
+            return self.access()
+        h, acc = self.own, self.case["acc"]
+        if self.case["ft"] == "plain":
+            holder = {"inst": h["inst2"], "cls": h["Base"], "subInst": h["subinst2"], "subCls": h["Sub"]}[acc]
+        else:
+            holder = {"inst": h["subinst"], "cls": h["Sub"], "subInst": h["inst"], "subCls": h["Base"]}[acc]
+        return holder.target
+
+    def sib_args(self):
+        """the caller's arguments of the second call"""
+        h, case = self.own, self.case
+        if eff_recv(case):
+            pos = [self.vals[n] for n in case["pos"]]
+            if case["ft"] == "plain" and case["acc"] in ("cls", "subCls"):
+                pos = [h["inst2"] if case["acc"] == "cls" else h["subinst2"]] + pos
+            kw = {NAMES[n]: self.vals[v] for n, v in case["kw"]}
+            return pos, kw
+        pos = [self.vals[n + SUBST] for n in case["pos"]]
+        if case["ft"] == "plain" and case["acc"] in ("cls", "subCls"):
+            pos = [h["inst"] if case["acc"] == "cls" else h["subinst"]] + pos
+        kw = {NAMES[n]: self.vals[v + SUBST] for n, v in case["kw"]}
+        return pos, kw
+
     def tok(self, o):
         if o is None:
             return 0
@@ -430,6 +690,10 @@ class World(object):
 
 class NoAsynq(Exception):
     pass
+
+
+class Skipped(Exception):
+    """the convention is not run on this case"""
 
 
 class Wrapped(object):
@@ -454,6 +718,8 @@ def _classify_exc(e, errs):
             return "(raisedUser %d)" % i
     if isinstance(e, NoAsynq):
         return "(raised noAsynq)"
+    if isinstance(e, Skipped):
+        return "(raised skipped)"
     if isinstance(e, TypeError):
         return "(raised typeError)"
     if isinstance(e, AttributeError):
@@ -526,6 +792,46 @@ def _convention(case, lib, conv):
                 both = yield [t1, t2]
                 return both[1]
             r = outer()
+        elif conv in SIBCONVS:
+            if identical_second(case):
+                raise Skipped()
+            sb = w.access_sib()
+            spos, skw = w.sib_args()
+
+            def deferred(thunk):
+                # both calls are MADE, one after the other; an exception raised while a future is being created
+                # (a missing attribute, arguments that do not bind a generator function, an undecorated function
+                # that async_call runs on the spot) is delivered where the future is awaited
+                try:
+                    return thunk()
+                except BaseException as e:  # noqa
+                    if _fatal(e):
+                        raise
+                    return asynq.ErrorFuture(e)
+
+            if conv == "sibling":
+                @asynq.asynq()
+                def outer():
+                    t1 = deferred(lambda: _asynq_attr(sb)(*spos, **skw))
+                    t2 = deferred(lambda: _asynq_attr(b)(*pos, **kw))
+                    both = yield [t1, t2]
+                    return both[1]
+                r = outer()
+            elif conv == "siblingCall":
+                @asynq.asynq()
+                def outer():
+                    t1 = deferred(lambda: asynq.async_call.asynq(sb, *spos, **skw))
+                    t2 = deferred(lambda: asynq.async_call.asynq(b, *pos, **kw))
+                    both = yield [t1, t2]
+                    return both[1]
+                r = outer()
+            else:
+                try:
+                    _asynq_attr(sb)(*spos, **skw).value()
+                except BaseException as e:  # noqa - the first call's outcome is its own business
+                    if _fatal(e):
+                        raise
+                r = _asynq_attr(b)(*pos, **kw).value()
         else:
             raise ValueError(conv)
         wrapped = 0
@@ -599,10 +905,10 @@ def run_case(case):
 
     lib = {"asynq": asynq, "decorators": decorators, "tools": tools, "DebugBatchItem": DebugBatchItem,
            "FutureBase": FutureBase}
-    lines = ["(case decorators %d %s %s %s %s %d %s (%s) (%s) %d (%s))" % (
+    lines = ["(case decorators %d %s %s %s %s %d %s (%s) (%s) %d (%s) %s %s)" % (
         case["id"], case["kind"], case["ft"], case["acc"], case["body"], case["raises"], case["sig"],
         " ".join(str(x) for x in case["pos"]), " ".join("(%d %d)" % (n, v) for n, v in case["kw"]),
-        1 if case.get("falsy") else 0, " ".join(case.get("pre", [])))]
+        1 if case.get("falsy") else 0, " ".join(case.get("pre", [])), case.get("rel", "args"), case.get("vk", "tok"))]
     entered = 0
     for conv in CONVS:
         entries, out, flag, ent = _convention(case, lib, conv)
@@ -617,7 +923,10 @@ def run_case(case):
     feats = ["kind=" + case["kind"], "bind=%s/%s" % (case["ft"], case["acc"]), "body=" + case["body"],
              "raises=%d" % case["raises"], "sig=" + case["sig"], "npos=%d" % min(len(case["pos"]), 4),
              "nkw=%d" % min(len(case["kw"]), 4), "falsy=%d" % (1 if case.get("falsy") else 0),
-             "prior-accesses=%d" % len(case.get("pre", []))]
+             "prior-accesses=%d" % len(case.get("pre", [])),
+             "second-call=%s" % ("skipped" if identical_second(case) else "other-receiver" if eff_recv(case) else "other-values"),
+             "values=" + case.get("vk", "tok"), "error-class=" + case.get("ek", "exc"),
+             "user-task-cls=%d" % (1 if case.get("tcls") else 0), "user-key-fn=%d" % (1 if case.get("kg") else 0)]
     nontrivial = None
     if entered >= 2:
         nontrivial = hashlib.sha1(json.dumps({k: v for k, v in case.items() if k != "id"}, sort_keys=True).encode()).hexdigest()[:16]
